@@ -14,6 +14,13 @@ Theorem C15_deterministic : forall U date d, write_doc U date d = write_doc U da
 Proof. exact write_deterministic. Qed.
 Print Assumptions C15_deterministic.
 
+(* once a document has been through one write/load cycle every further cycle reproduces the same tree:
+   what is read back from a written tree is written to exactly that tree again *)
+Theorem C15_stable : forall U date d v, doc_wf d -> write_doc U date d = Ok v ->
+  exists d', read_doc U v = Ok d' /\ write_doc U date d' = Ok v.
+Proof. exact write_read_write. Qed.
+Print Assumptions C15_stable.
+
 (* stability of criteria under further write/load cycles: what was loaded from a written tree is written identically *)
 Theorem C15_stable_criteria_partial : forall U all_children bool_ok tag attrs ks, criteria_wf bool_ok ks ->
   forall ks', read_match U all_children bool_ok (E U tag attrs (write_criteria U ks)) = Ok (Some ks') ->
